@@ -175,10 +175,6 @@ func (s shape) nested(depth int) bool {
 
 var orders = [][3]int{{0, 1, 2}, {0, 2, 1}, {1, 0, 2}, {1, 2, 0}, {2, 0, 1}, {2, 1, 0}}
 
-func orderName(o [3]int) string {
-	return string([]byte{"xyz"[o[0]], "xyz"[o[1]], "xyz"[o[2]]})
-}
-
 func spliceText(shapes []shape) string {
 	var sb strings.Builder
 	sb.WriteString(`.grid as $grid | .bins | to_entries | map(.key as $i | (if .value.u == 1 then .value.b.bits else .value.b.bytes end) as $c | [$grid[$i][] as [$a, $k] | [$c[:$a], $c[$a:$k], $c[$k:]] as $t | `)
@@ -421,7 +417,7 @@ func (e *explorer) splice(l1 []node) {
 					if mi < len(cols) {
 						got = unwrap(cols[mi])
 					}
-					e.judgeLaw("splice-insert", "member"+fmt.Sprint(mi), w.c, ref, got, ltree)
+					e.judgeLaw("splice-insert", "member "+m.jq(e.ls), w.c, ref, got, ltree)
 				}
 			}
 		}
@@ -467,10 +463,13 @@ func (e *explorer) spliceCut(w cutWork, a, k int, out any, shapes []shape, ckey 
 				}
 				return tLet(w.ctree(), tOp(Op{K: oToBits}, s.tree([3]*Tree{pt[o[0]], pt[o[1]], pt[o[2]]})))
 			}
-			e.judgeLaw("splice", shapeTexts[si]+":"+orderName(o), w.c, ref, got, ltree)
+			e.judgeLaw("splice", shapeTexts[si], w.c, ref, got, ltree)
 		}
 	}
 }
+
+// lawClass: unit and alignment of the operand of a law observation.
+func lawClass(v *Val) string { return strings.TrimPrefix(operandClass(v), "binary-") }
 
 // judgeLaw compares one law observation (got == nil: fq gave an error).
 func (e *explorer) judgeLaw(section, form string, operand, ref, got *Val, ltree func() *Tree) {
@@ -483,10 +482,10 @@ func (e *explorer) judgeLaw(section, form string, operand, ref, got *Val, ltree 
 		}
 	case got == nil:
 		t := ltree()
-		e.r.Violate(section+":error:"+form+":"+operandClass(operand), fmt.Sprintf("%s: reference: %s; fq: error", t.Short(e.ls), ref), caseOf(e, t, "law"))
+		e.r.Violate(section+":error:"+form+":"+lawClass(operand), fmt.Sprintf("%s: reference: %s; fq: error", t.Short(e.ls), ref), caseOf(e, t, "law"))
 	case !equal(ref, got):
 		t := ltree()
-		e.r.Violate(section+":wrong-result:"+form+":"+operandClass(operand)+":"+diff(ref, got), fmt.Sprintf("%s: reference: %s; fq: %s", t.Short(e.ls), ref, got), caseOf(e, t, "law"))
+		e.r.Violate(section+":wrong-result:"+form+":"+lawClass(operand)+":"+diff(ref, got), fmt.Sprintf("%s: reference: %s; fq: %s", t.Short(e.ls), ref, got), caseOf(e, t, "law"))
 	}
 }
 
